@@ -170,7 +170,7 @@ def _kani_unit(unit, tier, seed, pid=None):
         groups.setdefault(tuple(h.get("kani_args", [])), []).append(h)
     try:
         for extra, hl in groups.items():
-            out_all, meta, out, err = R.run_kani(unit["name"], crate_dir, [h["name"] for h in hl], timeout=unit.get("timeout", 3000), harness_timeout=unit.get("harness_timeout", 400),
+            out_all, meta, out, err = R.run_kani(unit["name"], crate_dir, [h["name"] for h in hl], timeout=unit.get("timeout", 3000), harness_timeout=unit.get("harness_timeout", 900),
                                                  jobs=unit.get("jobs", 8), extra=list(extra) + unit.get("kani_args", []))
             res.meta = meta
             if not out_all:
@@ -206,7 +206,7 @@ def _kani_unit(unit, tier, seed, pid=None):
                     failed_txt = "unwinding bound too small for the current code:\n" + failed_txt
                 if st == "undecided" and h.get("tier") == "thorough" and r.get("timed_out"):
                     # a thorough-only harness that does not finish within its budget is reported, not counted, and never an alarm
-                    res.thorough_incomplete.append("%s: %s (no verdict within %ds)" % (oname, h["name"], unit.get("harness_timeout", 400)))
+                    res.thorough_incomplete.append("%s: %s (no verdict within %ds)" % (oname, h["name"], unit.get("harness_timeout", 900)))
                     continue
                 if st == "undecided":
                     res.undecided.append("%s: harness %s: %s" % (unit["name"], h["name"], (failed_txt or r["raw"][-1500:])))
